@@ -193,7 +193,12 @@ fn byzantine<B: SimField, E: FieldElement<BaseField = B>, H: ElementHasher<BaseF
     // divides and the domain is the same. Polynomials of degree bound + 1 .. size - 1 must then be
     // refused although they fit the domain's own schedule.
     let fl = cfg.folding.pow(cfg.layers() as u32);
-    let n = if full / fl >= 4 && ch.chance("bound.not_pow2?", 1, 4) { full - fl * (1 + ch.index("bound.j", full / (2 * fl) - 1)) } else { full };
+    // (FriVerifier::new infers the domain as next_power_of_two(max degree) * blowup, so a bound + 1
+    // of full / 2 + 1 - max degree itself a power of two - names another domain: not claimed)
+    let mut n = if full / fl >= 4 && ch.chance("bound.not_pow2?", 1, 4) { full - fl * (1 + ch.index("bound.j", full / (2 * fl) - 1)) } else { full };
+    if (n - 1).is_power_of_two() && n != full {
+        n = full;
+    }
     if n != full {
         ctx.probe("claimed_bound_plus_one_not_a_power_of_two");
     }
@@ -254,7 +259,7 @@ fn byzantine<B: SimField, E: FieldElement<BaseField = B>, H: ElementHasher<BaseF
     let layers = cfg.layers();
     // (an over-long remainder must still fit the u16 length prefix of the wire form)
     let s5_ok = domain * E::ELEMENT_BYTES < 60_000;
-    let strategy = match ch.weighted("strategy", &[5, 3, if layers > 0 { 3 } else { 0 }, if layers > 0 { 2 } else { 0 }, if layers > 0 { 2 } else { 0 }, if s5_ok { 3 } else { 0 }, 2, 2]) {
+    let strategy = match ch.weighted("strategy", &[5, 3, if layers > 0 { 3 } else { 0 }, if layers > 0 { 2 } else { 0 }, if layers > 0 { 2 } else { 0 }, if s5_ok { 3 } else { 0 }, 2, 2, if cfg.remainder_size() >= 2 { 3 } else { 0 }]) {
         0 => Strategy::Honest,
         1 => Strategy::S1AdaptiveRemainder,
         2 => Strategy::S2TamperValue { layer: ch.index("s2.layer", layers), index: ch.index("s2.index", domain) },
@@ -262,7 +267,8 @@ fn byzantine<B: SimField, E: FieldElement<BaseField = B>, H: ElementHasher<BaseF
         4 => Strategy::S4SwapCommitments { a: ch.index("s4.a", layers) },
         5 => Strategy::S5LongRemainder,
         6 => Strategy::S6WrongRemainderCommitment,
-        _ => Strategy::S8ExtraCommitment,
+        7 => Strategy::S8ExtraCommitment,
+        _ => Strategy::S9ShortRemainder { pick: ch.index("s9.pick", 4096) },
     };
     ctx.event_with("setup", simcore::rng::fnv1a(format!("{:?}{:?}{fdesc}", cfg, strategy).as_bytes()), || {
         format!("{:?} ({} layers, remainder size {}), {fdesc}, strategy {:?}", cfg, layers, cfg.remainder_size(), strategy)
@@ -276,6 +282,7 @@ fn byzantine<B: SimField, E: FieldElement<BaseField = B>, H: ElementHasher<BaseF
         Strategy::S5LongRemainder => "byzantine_long_remainder",
         Strategy::S6WrongRemainderCommitment => "byzantine_wrong_remainder_commitment",
         Strategy::S8ExtraCommitment => "byzantine_extra_commitment_after_queries",
+        Strategy::S9ShortRemainder { .. } => "byzantine_short_remainder",
     });
     // the adversary may grind the nonce (commitments do not depend on it): for the tampering
     // strategy look for a nonce under which the tampered value is actually queried, preferably as
